@@ -45,8 +45,20 @@ func c11Sender(k int) *sender {
 //verif:bounds 0..3 unacknowledged frames, ackNo symbolic in [1,2^33), acknowledgement symbolic over all 2^32 values, window/congestion state symbolic; congestion arithmetic is floating point (havoc)
 //verif:cover acked-some;acked-none
 //verif:unwind 40
-func VH_C11_recvAck_any_number() {
+//verif:tier thorough
+//verif:timeout 600
+func VH_C11_recvAck_any_number_3frames() { c11RecvAck(3) }
+
+//verif:prop C11
+//verif:bounds as the 3-frame variant with 0..2 unacknowledged frames
+//verif:cover acked-some;acked-none
+//verif:unwind 40
+//verif:tier quick
+func VH_C11_recvAck_any_number() { c11RecvAck(2) }
+
+func c11RecvAck(maxK int) {
 	k := verifPick("frames", 0, 1, 2, 3)
+	verifAssume(k <= maxK)
 	s := c11Sender(k)
 	oldAck := s.ackNo
 	a := verifU32("ack")
